@@ -1041,9 +1041,9 @@ class Simplifier(pysmt.walkers.DagWalker):
                 # r > 0 : l / r == floor(float(l) / r)
                 # r < 0 : l / r == ceil(float(l) / r)
                 if r > 0:
-                    return self.manager.Int(math.floor(float(l) / r))
+                    return self.manager.Int(l // r)
                 if r < 0:
-                    return self.manager.Int(math.ceil(float(l) / r))
+                    return self.manager.Int(-(l // -r))
 
         if sl.is_constant():
             if sl.is_zero():
